@@ -760,12 +760,43 @@ class MaskedSel:
         raise Unsupported("masked selection with a symbolic mask can only feed masked_scatter (.%s used)" % name)
 
 
+# torch's own keyword names of the tensor methods modelled here, in positional order after the tensor (a call written with keywords
+# is re-ordered to the positional form the model functions take)
+TORCH_KW = {"masked_scatter": ("mask", "source"), "masked_scatter_": ("mask", "source"), "masked_fill": ("mask", "value"), "masked_fill_": ("mask", "value"),
+            "masked_select": ("mask",), "gather": ("dim", "index"), "scatter": ("dim", "index", "src"), "topk": ("k", "dim"), "eq": ("other",), "ne": ("other",),
+            "lt": ("other",), "le": ("other",), "gt": ("other",), "ge": ("other",), "unsqueeze": ("dim",), "squeeze": ("dim",), "transpose": ("dim0", "dim1"),
+            "flatten": ("start_dim", "end_dim"), "clamp_min": ("min",), "clamp_max": ("max",), "repeat_interleave": ("repeats", "dim"), "expand_as": ("other",),
+            "view_as": ("other",), "where": ("condition", "other"), "select": ("dim", "index"), "add": ("other",), "sub": ("other",), "mul": ("other",), "div": ("other",)}
+
+
+def call_modelled(fn, shown, name, I, t, args, kwargs):
+    """call a model function for a tensor method: torch's keyword names are mapped to positions; a call form the model function
+    does not accept is outside the verified subset (not an engine crash)"""
+    import inspect
+
+    args, kwargs = list(args), dict(kwargs)
+    order = TORCH_KW.get(name)
+    if order and kwargs:  # the model functions take torch's positional order
+        for pos in range(len(args), len(order)):
+            if order[pos] in kwargs:
+                args.append(kwargs.pop(order[pos]))
+            else:
+                break
+    try:
+        inspect.signature(fn).bind(I, t, *args, **kwargs)
+    except TypeError as e:
+        raise Unsupported("the call form of %s is not modelled (%s)" % (shown, e))
+    except ValueError:
+        pass
+    return fn(I, t, *args, **kwargs)
+
+
 class Method:
     def __init__(self, t, name):
         self.t, self.name = t, name
 
     def __vc_call__(self, I, args, kwargs):
-        return METHODS[self.name](I, self.t, *args, **kwargs)
+        return call_modelled(METHODS[self.name], "." + self.name, self.name, I, self.t, args, kwargs)
 
 
 METHODS = {}
@@ -1042,6 +1073,13 @@ def m_where(I, c, a, b):
     return CT.ew(sc_where, c, a_, b_, dtype=dt)
 
 
+def m_select(I, t, dim, index):
+    """t.select(dim, i) = t[..., i, ...] at dimension dim"""
+    d = _dim(t, dim)
+    return t.__vc_getitem__(I, tuple([slice(None)] * d + [index]))
+
+
+METHODS["select"] = m_select
 METHODS["where"] = lambda I, t, c, o: m_where(I, c, t, o)  # the METHOD form t.where(c, o) is torch.where(c, t, o)
 
 
